@@ -187,6 +187,8 @@ package bigbuff
 
 //@ func (*Channel).Get
 //@   props C13 C12
+//@   # only a Channel made by NewChannel is usable: everything else panics up front
+//@   panics notmade : c == nil || !c.valid
 //@   action mutex
 //@   # the caller's context is checked in every round before the lock is taken; the poll ticker exists before it is waited on and is stopped on the way out
 //@   at-call (*Channel).Get$1>(*sync.Mutex).Lock#0 callerctx : ctx != nil ==> lasterr(ctx) == nil
@@ -209,6 +211,8 @@ package bigbuff
 
 //@ func (*Channel).Commit
 //@   props C13 C12
+//@   # only a Channel made by NewChannel is usable: everything else panics up front
+//@   panics notmade : c == nil || !c.valid
 //@   action mutex
 //@   update-at-release k : c.k := old(cursor(c)) if len(c.buffer) < old(len(c.buffer))
 //@   ensures closed [C12,C13] : ret == nil ==> lasterr(c.ctx) == nil
@@ -221,6 +225,8 @@ package bigbuff
 
 //@ func (*Channel).Rollback
 //@   props C13
+//@   # only a Channel made by NewChannel is usable: everything else panics up front
+//@   panics notmade : c == nil || !c.valid
 //@   action mutex
 //@   ensures nothing : old(cursor(c)) == old(c.k) ==> ret != nil
 //@   ensures err_nop : ret != nil ==> unchanged(c.buffer, c.rollback, c.k)
@@ -228,6 +234,8 @@ package bigbuff
 
 //@ func (*Channel).Buffer
 //@   props C13
+//@   # only a Channel made by NewChannel is usable: everything else panics up front
+//@   panics notmade : c == nil || !c.valid
 //@   action mutex
 //@   ensures copy : len(ret) == len(c.buffer) && all(i, 0, len(ret), ret[i] == c.buffer[i]) && (ret == nil) == (c.buffer == nil)
 //@   ensures frame : unchanged(c.buffer, c.rollback, c.k)
@@ -235,6 +243,8 @@ package bigbuff
 //@ func (*Channel).Close
 //@   maypanic
 //@   props C13 C12
+//@   # only a Channel made by NewChannel is usable: everything else panics up front
+//@   panics notmade : c == nil || !c.valid
 
 //@ func (*Channel).Close$1
 //@   maypanic
@@ -277,6 +287,8 @@ package bigbuff
 //@   action mutex
 //@   panics badcount : count <= 0
 //@   panics nilvalue : value == nil
+//@   # ... and for nothing else: every positive count (1 included) with a non-nil function is accepted
+//@   nopanic valid : w != nil && count > 0 && value != nil
 //@   update-at-release maxreq : w.maxreq := max(old(w.maxreq), count)
 //@   loop 0 invariant spawn : w.count >= old(w.count) && w.count <= max(old(w.count), count) && w.count == old(w.count) + spawned("(*Workers).worker") && len(w.queue) == old(len(w.queue)) + 1 && w.target == count && w.cond != nil && all(i, 0, len(w.queue), w.queue[i] != nil && w.queue[i].value != nil && w.queue[i].output != nil && !closed(w.queue[i].output)) && heldW(w.mutex) && w.maxreq == old(w.maxreq)
 //@   ensures spawned : spawned("(*Workers).worker") == max(old(w.count), count) - old(w.count)
@@ -664,6 +676,8 @@ package bigbuff
 
 //@ func WaitCond$1
 //@   maypanic
+//@   # the watcher panics only when the cond has no Locker to take
+//@   at-panic #0 nolocker : cond.L == nil
 //@   props C05 C12
 //@   modular
 //@   # the watcher waits for nothing but the cancellation of the context it was started for
@@ -740,6 +754,8 @@ package bigbuff
 //@ func ConflatedContext
 //@   props C16 C12
 //@   panics empty : len(contexts) == 0
+//@   # nil inputs are the caller's error (context.WithoutCancel / AfterFunc panic on a nil parent)
+//@   requires nonnil : all(i, 0, len(contexts), contexts[i] != nil)
 //@   loop 0 invariant counted : wgn(wg) == 1 + icalls("ChainAfterFunc") && (ok <==> icalls("ChainAfterFunc") > 0) && calls(now(cancel)) == 0 && now(ctx) != nil && now(cancel) != nil
 //@   at-call context.WithCancel#0 detached : nevercancelled(arg0) && ctxvalues(arg0) == ctxvalues(contexts[0])
 //@   at-call ChainAfterFunc#0 each : arg0 == now(ctx) && arg1 == ctx2 && boundname(arg2) == "(*sync.WaitGroup).Done" && boundrecv(arg2) == wg && lasterr(ctx2) == nil
@@ -1101,9 +1117,13 @@ package bigbuff
 //@   props C12 C11
 //@   maypanic
 //@   ensures chan : ret == b.done
+//@   # also on the zero Buffer: the channel exists from the first call on
+//@   ensures made : ret != nil
 
 //@ func (*Channel).Done
 //@   props C12 C13
+//@   # only a Channel made by NewChannel is usable: everything else panics up front
+//@   panics notmade : c == nil || !c.valid
 //@   maypanic
 
 //@ func (*consumer).Done
@@ -1123,6 +1143,7 @@ package bigbuff
 //@   panics nilrecv : w == nil
 //@   panics badcount : count <= 0
 //@   panics nilvalue : value == nil
+//@   nopanic valid : w != nil && count > 0 && value != nil
 //@   ensures wrapped : ret != nil && captured(ret, count) == count && captured(ret, value) == value && captured(ret, w) == w
 
 //@ func (*Workers).Wrap$1
